@@ -1399,7 +1399,12 @@ fn gen_dir(r: &mut Prng, path: &str, depth: usize, lowest: bool, out: &mut host:
             out.push((p, Node::Dir { mode: *r.pick(&DMODES), opaque: if r.chance(1, 5) { 1 } else { 0 }, x: 0 }));
         } else if k < 68 {
             let n = r.below(4) as usize;
-            let content = (0..n).map(|_| r.range(1, 99) as u32).collect();
+            // now and then a file of zero bytes only (a pre-allocated placeholder), or one ending in them
+            let content: Vec<u32> = match r.below(12) {
+                0 => vec![0; 1 + r.below(3) as usize],
+                1 => (0..n).map(|_| r.range(1, 99) as u32).chain(std::iter::once(0)).collect(),
+                _ => (0..n).map(|_| r.range(1, 99) as u32).collect(),
+            };
             let x = if r.chance(1, 6) { r.range(1, 9) as u32 } else { 0 };
             out.push((p, Node::File { mode: *r.pick(&FMODES), content, x }));
         } else if k < 76 {
